@@ -27,7 +27,8 @@ def run(tier):
     inputs += sweep.inputs_classes(ck, 6, 1 if quick else 4, 1 if quick else 3, rng)
     inputs += sweep.inputs_table_graphs(L)       # every table line's own graph state on its own connectivity
     jobs = sweep.expand_jobs(inputs, ["prep", "readout", "compress"], rng)
-    traces, verdicts = sweep.run_jobs(ck, L, jobs, "cost")
+    # one Stabilizer / circuit object passed to every connectivity and API in turn (what it was asked before must not matter)
+    traces, verdicts = sweep.run_jobs(ck, L, jobs, "cost", sweeps=sweep.conn_sweep_jobs(inputs, ["prep", "readout", "compress"], rng))
     sweep.report(ck, "C04", traces, verdicts, CLAUSES, trivial=lambda t: not any(g[2] >= 0 for g in t["gates"]))
     seen = {}
     for t, (cl, extra) in zip(traces, verdicts):
